@@ -245,8 +245,10 @@ pub fn build(s: &Sx) -> &'static dyn Aml {
         }
         60 => leak(Package::new(kids(&o[1]))),
         61 => {
-            let mut pb = PackageBuilder::new();
-            for k in kids(&o[1]) {
+            // Default for PackageBuilder is PackageBuilder::new()
+            let ks = kids(&o[1]);
+            let mut pb = if ks.len() % 2 == 0 { PackageBuilder::new() } else { PackageBuilder::default() };
+            for k in ks {
                 pb.add_element(k);
             }
             leak(pb)
